@@ -1,5 +1,6 @@
 import Honeycomb.Props.C16Step5Total
 import Honeycomb.Props.C14d
+import Honeycomb.Props.C16Chain
 
 set_option linter.unusedSimpArgs false
 set_option linter.unusedVariables false
@@ -409,5 +410,331 @@ theorem insertVerticesBody_total {m : Map Val} (hwf : WF 3 m) (h0 : 0 < m.a.size
   simp only [whenP, ne_eq, hb1, hb2, not_false_eq_true, decide_true, if_true, Prog.bind_eq]
   rw [run_bind_of_ok rA, run_bind_of_ok rB', run_bind_of_ok rC, run_bind_of_ok rD, run_bind_of_ok rS]
   exact rI
+
+/-- **`insert_vertices_on_edge` is total** (partial: for a 2-linked edge whose two darts have a successor — every edge the
+    pipeline splits).  On a well-formed map with a vertex storage, an edge dart in use, `2k` spare darts in use, free and
+    distinct, `k` positions in `]0,1[`, and both end points of the edge carrying a value (`DefinedEdge` of C14d), the kernel
+    answers `Ok`: C14 proved what an `Ok` means and which error comes when; this is the converse. -/
+theorem C16_insertVertices_total_partial {m : Map Val} (hwf : WF 3 m) (h0 : 0 < m.a.size) {e : Nat} (he : C01.InUse m e)
+    (hb1 : m.β 1 e ≠ 0) (hb2 : m.β 2 e ≠ 0) (hc1 : m.β 1 (m.β 2 e) ≠ 0) {nds : List Nat} {ts : List Rat}
+    (hlen : nds.length = 2 * ts.length) (hfree : ∀ x, x ∈ nds → C01.InUse m x ∧ ∀ i, i < 3 → m.β i x = 0)
+    (hnd : nds.Nodup) (ht : ∀ t, t ∈ ts → 0 < t ∧ t < 1)
+    (hv1 : (m.att 0 (C03.cellId m .vertex e)).isSome = true)
+    (hv2 : (m.att 0 (C03.cellId m .vertex (m.β 1 e))).isSome = true) :
+    ∃ m', run (insertVerticesOnEdge m.n e nds ts) m = (.ok (), m') ∧ WF 3 m' ∧ m'.n = m.n ∧ m'.u = m.u ∧
+      m'.a.size = m.a.size := by
+  have hsplit : nds.take ts.length ++ nds.drop ts.length = nds := List.take_append_drop _ _
+  have hnz : ∀ x, x ∈ nds → x ≠ 0 := fun x hx => (hfree x hx).1.1
+  rw [C14.insertVertices_reads m hwf h0 e he.1 he.2.1 nds ts hlen
+    (fun d hd => ⟨(hfree d hd).1.2.1, (isFree_iff m 3 d).2 (hfree d hd).2⟩)
+    (fun h => hnz 0 (List.mem_of_mem_take h) rfl) (fun _ h => hnz 0 (List.mem_of_mem_drop h) rfl) ht,
+    if_neg (fun h => hb1 h.1)]
+  have htgt : C14.tgtOf m e = m.β 1 e := by unfold C14.tgtOf; rw [if_pos hb1]
+  rw [htgt]
+  obtain ⟨v1, v2, _, _, hw⟩ := C14.withEnds_some (k := fun v1 v2 =>
+    insertVerticesBody m.n v1 v2 e (m.β 2 e) (m.β 1 e) (nds.take ts.length) (nds.drop ts.length) ts) hv1 hv2
+  rw [hw]
+  exact insertVerticesBody_total hwf h0 he hb1 hb2 hc1
+    (by rw [List.length_take, List.length_drop]; omega)
+    (by rw [hsplit]; exact hfree) (by rw [hsplit]; exact hnd) v1 v2 ts
+
+/-! ## the attribute passes of step 5 -/
+
+theorem okβ_of_wf {m : Map Val} (hwf : WF 3 m) {i d : Nat} (hi : i < 3) (hd : d < m.n) : m.okβ i d = true :=
+  (Sized.okβ hwf.toSized i d).2 ⟨hi, hd⟩
+
+/-- one step of `mark_boundary`, forwards -/
+theorem run_markBoundary_step {m : Map Val} (hwf : WF 3 m) (hA : sBd < m.a.size) {stop d f : Nat} (hd : d ≠ stop)
+    (hlt : d < m.n) :
+    run (markBoundary stop (f + 1) d) m =
+      run (markBoundary stop f (m.β 1 d)) ((m.setA sBd d (some bdLeft)).setA sBd (m.β 2 d) (some bdRight)) := by
+  have h2 := hwf.range 2 (by omega) d hlt
+  rw [markBoundary, if_neg hd]
+  simp only [Prog.bind_eq, bind, run_rA, run_wA, run_rB, okA_vertex hwf hA hlt, okA_vertex hwf hA h2,
+    okβ_of_wf hwf (show 1 < 3 by omega) hlt, okβ_of_wf hwf (show 2 < 3 by omega) hlt, if_true, Map.okA_setA,
+    Map.okβ_setA, Map.β_setA]
+
+/-- `mark_boundary` along a β1 chain `d → l … → stop`: it ends within `|l| + 2` steps -/
+theorem markBoundary_total (stop : Nat) : ∀ (l : List Nat) (d : Nat) (m : Map Val) (fuel : Nat), WF 3 m →
+    sBd < m.a.size → B1Chain m d l → m.β 1 (l.getLastD d) = stop → stop ∉ d :: l → (∀ x, x ∈ d :: l → x < m.n) →
+    l.length + 2 ≤ fuel → ∃ m', run (markBoundary stop fuel d) m = (.ok (), m') ∧ SameTopo m m' := by
+  intro l
+  induction l with
+  | nil =>
+      intro d m fuel hwf hA _ hlast hstop hlt hfuel
+      obtain ⟨f, rfl⟩ : ∃ f, fuel = f + 2 := ⟨fuel - 2, by simp at hfuel; omega⟩
+      simp only [List.getLastD_nil] at hlast
+      rw [run_markBoundary_step hwf hA (fun h => hstop (by rw [h]; exact List.mem_cons_self)) (hlt d List.mem_cons_self),
+        hlast, markBoundary, if_pos rfl]
+      exact ⟨_, rfl, (SameTopo.setA _ _ _ _).trans (SameTopo.setA _ _ _ _)⟩
+  | cons x rest ih =>
+      intro d m fuel hwf hA hch hlast hstop hlt hfuel
+      obtain ⟨f, rfl⟩ : ∃ f, fuel = f + 1 := ⟨fuel - 1, by simp at hfuel; omega⟩
+      obtain ⟨h1, h2⟩ := hch
+      have st : SameTopo m ((m.setA sBd d (some bdLeft)).setA sBd (m.β 2 d) (some bdRight)) :=
+        (SameTopo.setA _ _ _ _).trans (SameTopo.setA _ _ _ _)
+      rw [run_markBoundary_step hwf hA (fun h => hstop (by rw [h]; exact List.mem_cons_self)) (hlt d List.mem_cons_self), h1]
+      rw [List.getLastD_cons] at hlast
+      obtain ⟨m', r', s'⟩ := ih x _ f (hwf.sameTopo st) (by rw [st.asz]; exact hA) (b1chain_congr st.b rest x h2)
+        (by rw [st.β]; exact hlast) (fun h => hstop (List.mem_cons_of_mem _ h))
+        (fun y hy => by rw [st.n]; exact hlt y (List.mem_cons_of_mem _ hy))
+        (by simp only [List.length_cons] at hfuel; omega)
+      exact ⟨m', r', st.trans s'⟩
+
+/-- the replacement of the placeholders is total on a well-formed map that has the storages it writes -/
+theorem replaceInter_total (ha : Bool) (i : Nat) : ∀ (pts : List Pt) (d : Nat) (m : Map Val), WF 3 m → 0 < m.a.size →
+    (ha = true → sVA < m.a.size) → d < m.n →
+    ∃ m', run (replaceInter m.n ha i d pts) m = (.ok (), m') ∧ SameTopo m m' := by
+  intro pts
+  induction pts with
+  | nil => intro d m _ _ _ _; exact ⟨m, by simp [replaceInter], SameTopo.refl m⟩
+  | cons v vs ih =>
+      intro d m hwf h0 hva hd
+      -- the vertex identifier of `d` (the null dart has identifier 0)
+      obtain ⟨vid, hvid, hvlt⟩ : ∃ vid, run (vertexId2 (X := Val) m.n d) m = (.ok vid, m) ∧ vid < m.n := by
+        by_cases hd0 : d = 0
+        · subst hd0; exact ⟨0, C14.run_vertexId2_null m hwf, hwf.toSized.npos⟩
+        · exact ⟨_, (C03.C03_vertexId2_min hwf hd0 hd).1, (C03.cellId_idem hwf (pol := .vertex) trivial hd0 hd).2.1⟩
+      have ok0 := okA_vertex hwf h0 hvlt
+      have st1 := SameTopo.setA m 0 vid (some (.pt v.1 v.2 0))
+      have hb1 := hwf.range 1 (by omega) d hd
+      cases ha with
+      | false =>
+          obtain ⟨m', r', s'⟩ := ih (m.β 1 d) _ (hwf.sameTopo st1) (by rw [st1.asz]; exact h0) (by intro h; cases h)
+            (by rw [st1.n]; exact hb1)
+          rw [Map.n_setA] at r'
+          refine ⟨m', ?_, st1.trans s'⟩
+          simp only [replaceInter, Prog.bind_eq]
+          rw [run_bind_of_ok hvid, run_bind_of_ok (run_writeVtx_ok _ ok0)]
+          simp only [Bool.false_eq_true, if_false, Prog.pure_eq, Prog.ret_bind]
+          rw [run_rB, if_pos (by rw [Map.okβ_setA]; exact okβ_of_wf hwf (by omega) hd), Map.β_setA]
+          exact r'
+      | true =>
+          have okv := okA_vertex hwf (hva rfl) hvlt
+          have st2 := SameTopo.setA (m.setA 0 vid (some (.pt v.1 v.2 0))) sVA vid (some (.tm (.leaf (4 * i))))
+          have st := st1.trans st2
+          obtain ⟨m', r', s'⟩ := ih (m.β 1 d) _ (hwf.sameTopo st) (by rw [st.asz]; exact h0)
+            (by intro _; rw [st.asz]; exact hva rfl) (by rw [st.n]; exact hb1)
+          rw [Map.n_setA, Map.n_setA] at r'
+          refine ⟨m', ?_, st.trans s'⟩
+          simp only [replaceInter, Prog.bind_eq]
+          rw [run_bind_of_ok hvid, run_bind_of_ok (run_writeVtx_ok _ ok0)]
+          simp only [if_true, Prog.bind_eq, bind]
+          rw [run_bind, run_bind]
+          simp only [run_rA', run_wA, Map.okA_setA, okv, if_true, run_wA']
+          rw [run_rB, if_pos (by rw [Map.okβ_setA, Map.okβ_setA]; exact okβ_of_wf hwf (by omega) hd), Map.β_setA, Map.β_setA]
+          exact r'
+
+/-! ## one iteration of step 5, any number of intermediate points -/
+
+theorem run_edgeId2_linked {m : Map Val} (hwf : WF 3 m) {d : Nat} (hd : d < m.n) (h2 : m.β 2 d = d + 1) :
+    run (edgeId2 (X := Val) d) m = (.ok d, m) := by
+  unfold edgeId2
+  simp only [Prog.bind_eq, bind, run_rB, okβ_of_wf hwf (show 2 < 3 by omega) hd, if_true, h2]
+  rw [if_neg (by omega)]
+  simp only [Prog.pure_eq, run_ret]
+  rw [Nat.min_eq_right (by omega)]
+
+/-- **one iteration of `insert_edges_in_map` is total**: the edge is `Ready`, its two end points carry a value, the block
+    of new darts is there; and what the iteration does to β0 / β1 of the darts handed out before -/
+theorem insertOneEdge_total {m : Map Val} {next i : Nat} {ha : Bool} {e : MEdge} (I : EInv m next)
+    (hA : sBd < m.a.size) (hva : ha = true → sVA < m.a.size) (R : Ready m e)
+    (hroom : next + (2 + 2 * e.inter.length) ≤ m.n)
+    (hc1 : ∃ P, Carries m (m.β 1 e.start) P) (hc2 : ∃ P, Carries m e.stop P) :
+    ∃ m', run (insertOneEdge m.n ha i e (List.range' next (2 + 2 * e.inter.length))) m = (.ok (), m') ∧
+      m'.a.size = m.a.size ∧
+      (∀ d, d < next → d ≠ e.start → d ≠ m.β 0 e.stop → m'.β 1 d = m.β 1 d) ∧
+      (∀ d, d < next → (m'.β 1 d = m.β 1 d ∨ next ≤ m'.β 1 d)) ∧
+      (∀ d, d < next → d ≠ e.stop → d ≠ m.β 1 e.start → m'.β 0 d = m.β 0 d) ∧
+      (∀ d, d < next → m.β 0 d ≠ 0 → m'.β 0 d ≠ 0) := by
+  obtain ⟨hs, he, n1, n0, hcons⟩ := R
+  have hwf := I.wf
+  have h0 : 0 < m.a.size := by unfold sBd at hA; omega
+  set k := e.inter.length with hk
+  obtain ⟨u0, f0, t0⟩ := I.fresh next (Nat.le_refl _) (by omega)
+  obtain ⟨u1, f1, t1⟩ := I.fresh (next + 1) (by omega) (by omega)
+  have hpos := I.pos
+  have id0 : C01.InUse m next := ⟨by omega, by omega, u0⟩
+  have id1 : C01.InUse m (next + 1) := ⟨by omega, by omega, u1⟩
+  obtain ⟨m1, r1⟩ := buildBaseEdge_total hwf hs he id0 id1 f0 f1 (by omega) n1 n0 hcons
+  obtain ⟨w1, nn1, uu1, a1, as1, _, _, e1, e2, e3, e4, e5, e6, e7⟩ :=
+    C16_buildBaseEdge_spec hwf hs he id0 id1 f0 f1 (by omega) r1
+  have notFresh : ∀ d, d < m.n → (∃ j, j < 3 ∧ m.β j d ≠ 0) → d < next := by
+    intro d hd ⟨j, hj, hne⟩
+    rcases Nat.lt_or_ge d next with h' | h'
+    · exact h'
+    · exact absurd ((I.fresh d h' hd).2.1 j hj) hne
+  have hstart : e.start < next := notFresh _ hs.2.1 ⟨1, by omega, n1⟩
+  have hstop : e.stop < next := notFresh _ he.2.1 ⟨0, by omega, n0⟩
+  have hb1s_lt : m.β 1 e.start < m.n := hwf.range 1 (by omega) _ hs.2.1
+  have hb0e_lt : m.β 0 e.stop < m.n := hwf.range 0 (by omega) _ he.2.1
+  have hb1s' : m.β 1 e.start < next := notFresh _ hb1s_lt ⟨0, by omega, by rw [hwf.inv01 _ hs.2.1 n1]; exact hs.1⟩
+  have hb0e' : m.β 0 e.stop < next := notFresh _ hb0e_lt ⟨1, by omega, by rw [hwf.inv10 _ he.2.1 n0]; exact he.1⟩
+  have iu1 : ∀ {d}, C01.InUse m d → C01.InUse m1 d := fun h =>
+    ⟨h.1, by rw [nn1]; exact h.2.1, by unfold Map.unused; rw [uu1]; exact h.2.2⟩
+  have b2n : m1.β 2 next = next + 1 := by rw [e5, if_pos rfl]
+  -- the darts not handed out yet are still free after `build_base_edge`
+  have free1 : ∀ d, next + 2 ≤ d → d < m.n → ∀ j, j < 3 → m1.β j d = 0 := by
+    intro d hd hdn j hj
+    have hf := (I.fresh d (by omega) hdn).2.1
+    rcases (by omega : j = 0 ∨ j = 1 ∨ j = 2) with rfl | rfl | rfl
+    · rw [e7 d (by omega) (by omega) (by omega) (by omega)]; exact hf 0 (by omega)
+    · rw [e6 d (by omega) (by omega) (by omega) (by omega)]; exact hf 1 (by omega)
+    · rw [e5 d, if_neg (by omega), if_neg (by omega)]; exact hf 2 (by omega)
+  -- the middle part: intermediate vertices and their coordinates
+  have mid : ∃ m3 fh sh, run (if e.inter.isEmpty then (pure () : P Val Unit) else do
+        let eid ← edgeId2 next
+        insertVerticesOnEdge m.n eid ((List.range' next (2 + 2 * k)).drop 2) (e.inter.map fun _ => (1 / 2 : Rat))
+        let d ← rB 1 eid
+        replaceInter m.n ha i d e.inter) m1 = (.ok (), m3) ∧
+      WF 3 m3 ∧ m3.n = m.n ∧ m3.a.size = m.a.size ∧ B1Chain m3 next fh ∧ m3.β 1 (fh.getLastD next) = e.stop ∧
+      m3.β 1 (sh.getLastD (next + 1)) = m.β 1 e.start ∧
+      (∀ x, x ∈ fh ++ sh → next + 2 ≤ x ∧ x < next + 2 + 2 * k) ∧ fh.length ≤ k ∧
+      (∀ d, d < next → m3.β 1 d = m1.β 1 d) ∧
+      (∀ d, d < next → d ≠ e.stop → d ≠ m.β 1 e.start → m3.β 0 d = m1.β 0 d) := by
+    by_cases hemp : e.inter.isEmpty = true
+    · refine ⟨m1, [], [], by rw [if_pos hemp]; rfl, w1, nn1, as1, trivial, e2, e4, by simp, by simp,
+        fun _ _ => rfl, fun _ _ _ _ => rfl⟩
+    · rw [if_neg hemp]
+      have hkpos : 0 < k := by
+        rw [hk]; cases hi : e.inter with
+        | nil => rw [hi] at hemp; simp at hemp
+        | cons _ _ => simp
+      have hslice : (List.range' next (2 + 2 * k)).drop 2 = List.range' (next + 2) (2 * k) := by
+        rw [List.drop_range']; congr 1 <;> omega
+      rw [hslice]
+      have hmem : ∀ d, d ∈ List.range' (next + 2) (2 * k) → next + 2 ≤ d ∧ d < next + 2 + 2 * k := by
+        intro d hd; rw [List.mem_range'_1] at hd; exact hd
+      have hlen : (e.inter.map fun _ => (1 / 2 : Rat)).length = k := by rw [List.length_map]
+      -- the two end points of the edge that is subdivided carry a value
+      obtain ⟨P1, hP1⟩ := hc1
+      obtain ⟨P2, hP2⟩ := hc2
+      have c1 := carries_buildBaseEdge hwf hs he id0 id1 f0 f1 (by omega) r1 hb1s' (by omega) hP1
+      have c2 := carries_buildBaseEdge hwf hs he id0 id1 f0 f1 (by omega) r1 hstop (by omega) hP2
+      have hvid : C03.cellId m1 .vertex next = C03.cellId m1 .vertex (m.β 1 e.start) := by
+        have := cellId_b1b2 w1 (x := next) id0.1 (by rw [nn1]; exact id0.2.1) (by rw [b2n, e4]; exact n1)
+        rw [b2n, e4] at this; exact this.symm
+      obtain ⟨m2, r2, w2, nn2, uu2, as2⟩ := C16_insertVertices_total_partial (m := m1) (e := next)
+        (nds := List.range' (next + 2) (2 * k)) (ts := e.inter.map fun _ => (1 / 2 : Rat)) w1 (by rw [as1]; exact h0)
+        (iu1 id0) (by rw [e2]; exact he.1) (by rw [b2n]; omega) (by rw [b2n, e4]; exact n1)
+        (by rw [List.length_range', hlen])
+        (fun x hx => by
+          obtain ⟨a, b⟩ := hmem x hx
+          exact ⟨iu1 ⟨by omega, by omega, (I.fresh x (by omega) (by omega)).1⟩, free1 x a (by omega)⟩)
+        List.nodup_range'
+        (fun t ht => by
+          obtain ⟨_, _, rfl⟩ := List.mem_map.1 ht
+          constructor <;> norm_num)
+        (by rw [hvid, c1.2]; rfl) (by rw [e2, c2.2]; rfl)
+      rw [nn1] at r2
+      have hlive : ∀ d, d ∈ List.range' (next + 2) (2 * k) → m1.unused d = false := by
+        intro d hd
+        obtain ⟨a, b⟩ := hmem d hd
+        unfold Map.unused; rw [uu1]
+        exact (I.fresh d (by omega) (by omega)).1
+      have hfhnd : ((List.range' (next + 2) (2 * k)).take (e.inter.map fun _ => (1 / 2 : Rat)).length).Nodup :=
+        (List.nodup_range').sublist (List.take_sublist _ _)
+      obtain ⟨_, hres⟩ := C14.C14_insertVertices_beta_structure m1 m2 next _ _ w1 (iu1 id0) hlive hfhnd
+        (fun _ => List.nodup_range') (by rw [nn1]; exact r2)
+      set fh := (List.range' (next + 2) (2 * k)).take (e.inter.map fun _ => (1 / 2 : Rat)).length with hfh
+      set sh := (List.range' (next + 2) (2 * k)).drop (e.inter.map fun _ => (1 / 2 : Rat)).length with hsh
+      have hfhm : ∀ d, d ∈ fh → next + 2 ≤ d ∧ d < next + 2 + 2 * k := fun d hd => hmem d (List.mem_of_mem_take hd)
+      have hshm : ∀ d, d ∈ sh → next + 2 ≤ d ∧ d < next + 2 + 2 * k := fun d hd => hmem d (List.mem_of_mem_drop hd)
+      have h2ne : m1.β 2 next ≠ 0 := by rw [b2n]; omega
+      -- the replacement of the placeholders
+      have hd2 : m2.β 1 next < m2.n := w2.range 1 (by omega) next (by rw [nn2, nn1]; exact id0.2.1)
+      obtain ⟨m3, r3, st3⟩ := replaceInter_total ha i e.inter (m2.β 1 next) m2 w2 (by rw [as2, as1]; exact h0)
+        (by intro h; rw [as2, as1]; exact hva h) hd2
+      rw [nn2, nn1] at r3
+      have hβ3 : ∀ j d, m3.β j d = m2.β j d := fun j d => st3.β j d
+      refine ⟨m3, fh, sh, ?_, w2.sameTopo st3, by rw [st3.n, nn2, nn1], by rw [st3.asz, as2, as1],
+        b1chain_congr st3.b fh next hres.side1.1, ?_, ?_, ?_, ?_, ?_, ?_⟩
+      · simp only [Prog.bind_eq]
+        rw [run_bind_of_ok (run_edgeId2_linked w1 (by rw [nn1]; exact id0.2.1) b2n), run_bind_of_ok r2, run_rB,
+          if_pos (okβ_of_wf w2 (by omega) (by rw [nn2, nn1]; exact id0.2.1))]
+        exact r3
+      · rw [hβ3, hres.side1.2, e2]
+      · have := (hres.side2 h2ne).2
+        rw [b2n, e4] at this
+        rw [hβ3]; exact this
+      · intro x hx
+        rcases List.mem_append.1 hx with h | h
+        · exact hfhm x h
+        · exact hshm x h
+      · rw [hfh, List.length_take]; omega
+      · intro d hd
+        rw [hβ3]
+        refine hres.frame1 d ?_ (fun _ => ?_)
+        · intro h
+          rcases List.mem_cons.1 h with h | h
+          · omega
+          · have := hfhm d h; omega
+        · intro h
+          rw [b2n] at h
+          rcases List.mem_cons.1 h with h | h
+          · omega
+          · have := hshm d h; omega
+      · intro d hd hds hdb
+        rw [hβ3]
+        refine hres.frame0 d (fun h => by have := hfhm d h; omega) (by rw [e2]; exact hds) (fun _ => ⟨?_, ?_⟩)
+        · intro h; have := hshm d h; omega
+        · rw [b2n, e4]; exact hdb
+  obtain ⟨m3, fh, sh, r3, w3, nn3, as3, hch, hlast, hlast2, hnew, hfl, fr1, fr0⟩ := mid
+  have hnf : ∀ x, x ∈ fh → next + 2 ≤ x ∧ x < next + 2 + 2 * k := fun x hx => hnew x (List.mem_append_left _ hx)
+  have hns : ∀ x, x ∈ sh → next + 2 ≤ x ∧ x < next + 2 + 2 * k := fun x hx => hnew x (List.mem_append_right _ hx)
+  have h3start : m3.β 1 e.start = next := by rw [fr1 _ hstart, e1]
+  -- `mark_boundary` walks the new edge
+  obtain ⟨m', r', st'⟩ := markBoundary_total e.stop fh next m3 m.n w3 (by rw [as3]; exact hA) hch hlast
+    (by
+      intro h
+      rcases List.mem_cons.1 h with h | h
+      · omega
+      · have := hnf _ h; omega)
+    (by
+      intro x hx
+      rw [nn3]
+      rcases List.mem_cons.1 hx with h | h
+      · omega
+      · have := hnf _ h; omega)
+    (by omega)
+  have hβ' : ∀ j d, m'.β j d = m3.β j d := fun j d => st'.β j d
+  have w' := w3.sameTopo st'
+  have hL1 : fh.getLastD next ≠ 0 ∧ fh.getLastD next < m.n := by
+    rcases List.mem_cons.1 (getLastD_mem_cons fh next) with h | h
+    · rw [h]; omega
+    · have := hnf _ h; omega
+  have hL2 : sh.getLastD (next + 1) ≠ 0 ∧ sh.getLastD (next + 1) < m.n := by
+    rcases List.mem_cons.1 (getLastD_mem_cons sh (next + 1)) with h | h
+    · rw [h]; omega
+    · have := hns _ h; omega
+  refine ⟨m', ?_, by rw [st'.asz, as3], ?_, ?_, ?_, ?_⟩
+  · unfold insertOneEdge
+    simp only [Prog.bind_eq]
+    rw [rg' (by omega : 0 < 2 + 2 * k), rg' (by omega : 1 < 2 + 2 * k), Nat.add_zero, run_bind_of_ok r1]
+    simp only [Prog.bind_eq] at r3
+    rw [run_bind_of_ok r3, run_rB, if_pos (okβ_of_wf w3 (by omega) (by rw [nn3]; exact hs.2.1)), h3start]
+    exact r'
+  · intro d hd h1 h2
+    rw [hβ', fr1 d hd]
+    exact e6 d h1 h2 (by omega) (by omega)
+  · intro d hd
+    rw [hβ', fr1 d hd]
+    by_cases h1 : d = e.start
+    · right; rw [h1, e1]
+    · by_cases h2 : d = m.β 0 e.stop
+      · right; rw [h2, e3]; omega
+      · left; exact e6 d h1 h2 (by omega) (by omega)
+  · intro d hd h1 h2
+    rw [hβ', fr0 d hd h1 h2]
+    exact e7 d h1 h2 (by omega) (by omega)
+  · intro d hd hd0
+    rw [hβ']
+    by_cases h1 : d = e.stop
+    · have := w3.inv01 (fh.getLastD next) (by rw [nn3]; exact hL1.2) (by rw [hlast]; exact he.1)
+      rw [hlast] at this; rw [h1, this]; exact hL1.1
+    · by_cases h2 : d = m.β 1 e.start
+      · have := w3.inv01 (sh.getLastD (next + 1)) (by rw [nn3]; exact hL2.2) (by rw [hlast2]; exact n1)
+        rw [hlast2] at this; rw [h2, this]; exact hL2.1
+      · rw [fr0 d hd h1 h2, e7 d h1 h2 (by omega) (by omega)]; exact hd0
 
 end HC.C16
